@@ -976,7 +976,7 @@ MiniOutcome tw_run_t(const J& c) {
     o.counters["runs_with_multiple_inheritance_objects"] = ex.used_mi;
     o.counters["runs_with_virtual_base_objects"] = ex.used_vb;
     o.counters["runs_with_unload_after_update"] = ex.used_history;
-    o.counters["other_property_observations"] = others;
+    o.counters["tw_other_property_observations"] = others;
     return o;
 }
 
